@@ -18,6 +18,7 @@ fn main() {
     let args = run::parse_args();
     match args.mode.clone() {
         Mode::Parent => parent(&args),
+        Mode::Child(k) if k == "trace" => child_trace(&args),
         Mode::Child(k) => child(&args, k == "nested"),
         Mode::Replay(p) => run::replay(ID, &p),
     }
@@ -31,6 +32,9 @@ fn parent(args: &Args) {
     run::classify_ends(&ends, &mut out, true);
     // two registries alternating as the default of the same threads (nested `with_default`),
     // each operation touching only the registry that is the default at that moment
+    let n3 = args.get_u64("tshards", args.tier.pick(16, 160));
+    let ends = run::run_children(args, &ChildSpec::new("trace", n3).arg("rounds", args.get_u64("rounds", 40)).timeout(600), &mut out);
+    run::classify_ends(&ends, &mut out, true);
     let n2 = args.get_u64("nshards", args.tier.pick(32, 800));
     let ends = run::run_children(args, &ChildSpec::new("nested", n2).arg("hist", args.get_u64("hist", 300)).timeout(600), &mut out);
     run::classify_ends(&ends, &mut out, true);
@@ -55,6 +59,101 @@ fn parent(args: &Args) {
         },
         out,
     );
+}
+
+/// SpanTrace chains read while another thread records on a span of the chain.  Stack: Registry +
+/// fmt subscriber + ErrorSubscriber (they share the span's `FormattedFields`).  Thread A captures
+/// a SpanTrace inside nested spans and walks it; inside the callback for one span it lets thread
+/// B record a long value on that span (which makes fmt re-allocate the stored field text) and
+/// waits a bounded number of yields.  What the callback was handed (`&Metadata`, `&str`) must
+/// read the same before and after; the walk must list the chain leaf -> root.  Natively a stale
+/// `&str` often still reads the old bytes - the Miri / ASan layers over this kind report it.
+fn child_trace(args: &Args) {
+    use std::sync::atomic::{AtomicUsize, Ordering};
+    use tracing_error::{ErrorSubscriber, SpanTrace};
+    use tracing_subscriber::prelude::*;
+    let rounds = args.get_u64("rounds", 40);
+    let mut out = Out::new();
+    for r in 0..rounds {
+        let mut rng = vlib::Rng::derive(args.seed ^ 0x7ACE, args.shard, r);
+        let depth = 1 + rng.usize(3);
+        let victim = rng.usize(depth);
+        let d = tracing_core::Dispatch::new(
+            tracing_subscriber::registry()
+                .with(tracing_subscriber::fmt::subscriber().with_ansi(false).with_writer(std::io::sink))
+                .with(ErrorSubscriber::default()),
+        );
+        // phase: 0 idle, 1 = callback reached the victim span, 2 = recorder done
+        let phase = AtomicUsize::new(0);
+        let spans: Vec<tracing::Span> = tracing::dispatch::with_default(&d, || {
+            let mut v: Vec<tracing::Span> = vec![];
+            for k in 0..depth {
+                let parent = v.last().cloned();
+                let s = match parent {
+                    Some(p) => tracing::info_span!(parent: &p, "chain", k = k as u64, late = tracing::field::Empty),
+                    None => tracing::info_span!("chain", k = k as u64, late = tracing::field::Empty),
+                };
+                v.push(s);
+            }
+            v
+        });
+        let mut problems: Vec<String> = vec![];
+        std::thread::scope(|sc| {
+            let recorder = sc.spawn(|| {
+                // bounded wait for the walker to reach the victim
+                for _ in 0..200_000 {
+                    if phase.load(Ordering::SeqCst) == 1 {
+                        break;
+                    }
+                    std::thread::yield_now();
+                }
+                spans[victim].record("late", "a value that is long enough to make the stored field text grow beyond its current allocation, twice over if need be");
+                phase.store(2, Ordering::SeqCst);
+            });
+            let _g = tracing::dispatch::set_default(&d);
+            let leaf = spans[depth - 1].clone();
+            let trace = leaf.in_scope(SpanTrace::capture);
+            let mut listed: Vec<u64> = vec![];
+            trace.with_spans(|meta, fields| {
+                let k: u64 = fields.strip_prefix("k=").and_then(|x| x.split_whitespace().next()).and_then(|x| x.parse().ok()).unwrap_or(u64::MAX);
+                listed.push(k);
+                if k == victim as u64 {
+                    let before = (meta.name().to_string(), fields.to_string());
+                    phase.store(1, Ordering::SeqCst);
+                    // bounded: on a build that keeps the span's data locked during the callback
+                    // the recorder can only finish after the callback has returned
+                    for _ in 0..2_000 {
+                        if phase.load(Ordering::SeqCst) == 2 {
+                            break;
+                        }
+                        std::thread::yield_now();
+                    }
+                    let after = (meta.name().to_string(), fields.to_string());
+                    if before != after {
+                        problems.push(format!("the text handed to the with_spans callback changed while the callback was running: {before:?} -> {after:?}"));
+                    }
+                    if phase.load(Ordering::SeqCst) == 2 {
+                        out.count("trace_walks_overlapped_by_a_completed_record", 1);
+                    }
+                }
+                true
+            });
+            let want: Vec<u64> = (0..depth as u64).rev().collect();
+            if listed != want {
+                problems.push(format!("SpanTrace lists spans {listed:?}, the chain leaf->root is {want:?}"));
+            }
+            phase.store(1, Ordering::SeqCst);
+            recorder.join().expect("HARNESS: recorder panicked");
+        });
+        out.evals += 1;
+        out.count("trace_walks_with_a_concurrent_record", 1);
+        out.distinct_str(&format!("trace|d{depth}|v{victim}"));
+        if let Some(p) = problems.first() {
+            out.violation(p.clone(), json!({"part": "trace", "round": r, "shard": args.shard, "depth": depth, "victim": victim, "problems": problems}));
+            break;
+        }
+    }
+    out.emit();
 }
 
 fn child(args: &Args, nested: bool) {
